@@ -96,6 +96,21 @@ def make_case(rng, variants, sign, conn, geom, B, T, red, mode, zero_delay=False
             "signal": sig}
 
 
+def set_ktensor(rng, case, kind):
+    """give the kernel trainers of the case their learning rates / time constants as tensors:
+    '0d' = 0-d tensors, 'const' = weight-shaped (broadcastable) constant tensors, 'perw' = per-weight values"""
+    case["ktensor"] = kind
+    if kind == "perw":
+        nw = geom_sizes(case["conn"], case["geom"])[2]
+        p = case["params"]
+        sgn = lambda x: 1.0 if x >= 0 else -1.0
+        case["kparams"] = {"lrPos": [sgn(p["lrPos"]) * rng.choice([0.125, 0.25, 0.5, 1.0]) for _ in range(nw)],
+                           "lrNeg": [sgn(p["lrNeg"]) * rng.choice([0.125, 0.25, 0.5, 1.0]) for _ in range(nw)],
+                           "tcPos": [rng.choice([2.0, 4.0, 5.0, 10.0, 20.0]) for _ in range(nw)],
+                           "tcNeg": [rng.choice([2.0, 4.0, 5.0, 10.0, 20.0]) for _ in range(nw)]}
+    return case
+
+
 def build(case, variant):
     p, geom, conn, B = case["params"], case["geom"], case["conn"], case["B"]
     dt = p["dt"]
@@ -121,6 +136,18 @@ def build(case, variant):
     rates = dict(lr_pos=p["lrPos"], lr_neg=p["lrNeg"], tc_pos=p["tcPos"], tc_neg=p["tcNeg"])
     kpos = {"learning_rate": p["lrPos"], "time_constant": p["tcPos"]}
     kneg = {"learning_rate": p["lrNeg"], "time_constant": p["tcNeg"]}
+    kt = case.get("ktensor")
+    if kt and variant in KERNEL:       # kernel hyper-parameters given as TENSORS (registered as buffers by the trainers)
+        wshape = tuple(c.weight.shape) + (1,)
+
+        def tens(name):
+            if kt == "0d":
+                return torch.tensor(p[name], dtype=torch.float64)
+            if kt == "const":
+                return torch.full(wshape, p[name], dtype=torch.float64)
+            return torch.tensor(case["kparams"][name], dtype=torch.float64).reshape(wshape)
+        kpos = {"learning_rate": tens("lrPos"), "time_constant": tens("tcPos")}
+        kneg = {"learning_rate": tens("lrNeg"), "time_constant": tens("tcNeg")}
     if variant == "da":
         tr = DelayAdjustedSTDP(**rates, **kw)
     elif variant == "dad":
@@ -156,6 +183,8 @@ def run_real(case, variant):
             conn.delay = torch.tensor(case["delays"][0], dtype=torch.float64).reshape(conn.delay.shape)
             out["p0"] = flat(getattr(conn, target))
             for t in range(case["T"]):
+                if case.get("clear_at") == t:       # second EPISODE: every event time must be NaN again
+                    tr.clear(keepshape=True) if case.get("clear_keep") else tr.clear()
                 if not learn:
                     conn.delay = torch.tensor(case["delays"][t], dtype=torch.float64).reshape(conn.delay.shape)
                 out["delays"].append(flat(conn.delay))
@@ -181,8 +210,26 @@ def run_real(case, variant):
     return out
 
 
+def episode_slice(case, a, b):
+    c = dict(case)
+    c.update({"T": b - a, "pre": case["pre"][a:b], "post": case["post"][a:b], "delays": case["delays"][a:b], "clear_at": None})
+    if case["signal"] is not None:
+        c["signal"] = dict(case["signal"], v=case["signal"]["v"][a:b])
+    return c
+
+
 def request_lines(case, variant, delays):
-    """delays: per step, per weight, the delay in effect (from the real run)"""
+    """delays: per step, per weight, the delay in effect (from the real run).  A run cleared at `clear_at` is sent
+    as two episodes (all weights of the first, then all weights of the second)."""
+    t0 = case.get("clear_at")
+    if t0 is None:
+        return request_lines1(case, variant, delays)
+    l1, _ = request_lines1(episode_slice(case, 0, t0), variant, delays[:t0])
+    l2, _ = request_lines1(episode_slice(case, t0, case["T"]), variant, delays[t0:])
+    return l1 + l2, request_lines1(case, variant, delays)[1]
+
+
+def request_lines1(case, variant, delays):
     p, T, B = case["params"], case["T"], case["B"]
     pre, post = trains(case)
     fields = weight_fields(case)
@@ -194,14 +241,25 @@ def request_lines(case, variant, delays):
         sg = f"s:{hx(sig['scale'])}:" + ",".join(hx(v) for v in sig["v"])
     else:
         sg = f"t:{hx(sig['scale'])}:" + "/".join(",".join(hx(v) for v in row) for row in sig["v"])
-    head = [name] + [hx(p[k]) for k in ("lrPos", "lrNeg", "tcPos", "tcNeg", "dt")] + [case["red"], str(T)]
+    perw = case.get("ktensor") == "perw" and variant in KERNEL
     lines, tstr = [], []
     for w, fld in enumerate(fields):
+        pw = {k: case["kparams"][k][w] for k in ("lrPos", "lrNeg", "tcPos", "tcNeg")} if perw else p
+        head = [name] + [hx(pw[k]) for k in ("lrPos", "lrNeg", "tcPos", "tcNeg")] + [hx(p["dt"]), case["red"], str(T)]
         tr = ";".join(",".join(f"{pre[b][i]}:{post[b][o]}" for i, o in fld) for b in range(B))
         tstr.append(tr)
         ds = ",".join(hx(delays[t][w]) for t in range(T))
         lines.append(" ".join(head + [tr, ds, sg]))
     return lines, tstr
+
+
+def tables_for(case, resp):
+    t0 = case.get("clear_at")
+    if t0 is None:
+        return tables_of(resp, case["T"])
+    nw = len(resp) // 2
+    a, b = tables_of(resp[:nw], t0), tables_of(resp[nw:], case["T"] - t0)
+    return {k: [np.concatenate([x, y], axis=1) for x, y in zip(a[k], b[k])] for k in a}
 
 
 def tables_of(resp, T):
@@ -310,7 +368,9 @@ PAIRS = [("da", "dak", "kernel-vs-dedicated"), ("dad", "dakd", "kernel-vs-dedica
 
 def describe(case, w, tstr, delays):
     return {"params": case["params"], "connection": case["conn"], "geometry": case["geom"], "batch": case["B"], "reduction": case["red"],
-            "mode": case["mode"], "signal": case["signal"], "weight_index": w,
+            "mode": case["mode"], "signal": case["signal"], "weight_index": w, "kernel_kwargs_as": case.get("ktensor") or "floats",
+            "kernel_params_of_this_weight": ({k: case["kparams"][k][w] for k in case["kparams"]} if case.get("ktensor") == "perw" else None),
+            "trainer_cleared_before_step": case.get("clear_at"), "clear_keepshape": case.get("clear_keep"),
             "delay_of_this_weight_per_step_ms": [float(d[w]) for d in delays],
             "history(pre:post per field element, ';' between batch samples)": tstr}
 
@@ -321,6 +381,8 @@ def synapse_case(case, w, tstr):
     T, B = case["T"], case["B"]
     per_b = [x.split(":") for x in tstr.split(";")]
     c = dict(case)
+    if case.get("kparams"):
+        c["kparams"] = {k: [v[w]] for k, v in case["kparams"].items()}
     c.update({"conn": "dense", "geom": {"nin": 1, "nout": 1}, "delays": [[d[w]] for d in case["delays"]],
               "pre": [[per_b[b][0][t] for b in range(B)] for t in range(T)],
               "post": [[per_b[b][1][t] for b in range(B)] for t in range(T)]})
@@ -367,6 +429,9 @@ class Runner:
         ex.count("mode", case["mode"])
         ex.count("reduction", case["red"])
         ex.count("batch", str(case["B"]))
+        ex.count("kernel_kwargs", case.get("ktensor") or "floats")
+        if case.get("clear_at") is not None:
+            ex.count("episodes", "clear(keepshape=True)" if case.get("clear_keep") else "clear()")
         p = case["params"]
         ex.count("sign_mode", {(True, False): "hebbian", (False, True): "anti-hebbian", (True, True): "potentiative",
                                (False, False): "depressive"}[(p["lrPos"] >= 0, p["lrNeg"] >= 0)])
@@ -376,13 +441,14 @@ class Runner:
                 self.add_finding("spec", f"C18:raises:{v}", f"{NAMES[v]} raised {real['exc']} at step {real['step']} instead of producing an update",
                                  {"case": dict(case, variants=[v]), "raised": real["exc"], "step": real["step"]}, 2)
                 continue
-            nw = len(resps[v])
+            nw = len(tstr)
             ex.evaluations += nw * len(real["steps"])
-            cfgkey = (v, tuple(sorted(p.items())), case["red"], case["B"], repr(case["signal"]) if v.startswith("dam") else "")
+            cfgkey = (v, tuple(sorted(p.items())), case["red"], case["B"], repr(case["signal"]) if v.startswith("dam") else "",
+                      case.get("clear_at"), case.get("clear_keep"), case.get("ktensor"), repr(case.get("kparams")) if v in KERNEL else "")
             for w, s in enumerate(tstr):
                 if any("1" in x.split(":")[0] and "1" in x.split(":")[1] for f in s.split(";") for x in f.split(",")):
                     ex.nontriv((cfgkey, tuple(float(d[w]) for d in real["delays"]), s))
-            tables = tables_of(resps[v], case["T"])
+            tables = tables_for(case, resps[v])
             for name, w, t, what, exp, obs in judge(case, v, real, tables):
                 kindf = "spec" if name == "S" else "model"
                 key = f"C18:{'formula' if name == 'S' else 'model'}:{v.split('-')[0]}"
@@ -395,14 +461,18 @@ class Runner:
                     r2 = run_real(small, v)
                     if "exc" not in r2:
                         l2, _ = request_lines(small, v, r2["delays"])
-                        if any(q[0] == name for q in judge(small, v, r2, tables_of(self.ctx.run_driver(DRIVER, l2), small["T"]))):
+                        if any(q[0] == name for q in judge(small, v, r2, tables_for(small, self.ctx.run_driver(DRIVER, l2)))):
                             rep = small
                 self.add_finding(kindf, key, f"{NAMES[v]}: {what} after step {t}: real {obs} vs {stream} {exp} "
-                                 f"[{case['conn']} history {tstr[w]} delays {[float(d[w]) for d in real['delays']]}]",
+                                 f"[{case['conn']} history {tstr[w]} delays {[float(d[w]) for d in real['delays']]}" +
+                                 (f"; trainer.clear({'keepshape=True' if case.get('clear_keep') else ''}) before step {case['clear_at']}" if case.get("clear_at") is not None else "") +
+                                 (f"; kernel kwargs as {case['ktensor']} tensors" if case.get("ktensor") and v in KERNEL else "") + "]",
                                  {"case": rep, "weight": describe(case, w, tstr[w], real["delays"]), "step": t, "expected": exp,
                                   "observed": obs, "stream": name, "variant": v})
         # cross-implementation differentials on the real code
         for a, b, rel in PAIRS:
+            if case.get("ktensor") == "perw" and (a in KERNEL) != (b in KERNEL):
+                continue        # per-weight kernel parameters have no scalar-rate counterpart
             if a in reals and b in reals and "exc" not in reals[a] and "exc" not in reals[b]:
                 ex.count("differential", f"{a}~{b}")
                 ex.evaluations += len(reals[a]["steps"])
@@ -411,7 +481,9 @@ class Runner:
                     t, w, label, va, vb = d
                     self.add_finding("spec", f"C18:differential:{rel}:{a}~{b}",
                                      f"{NAMES[a]} and {NAMES[b]} disagree on accumulator {label} after step {t}: {va} vs {vb} "
-                                     f"[{case['conn']} history {tstr[w] if tstr else '?'}]",
+                                     f"[{case['conn']} history {tstr[w] if tstr else '?'}" +
+                                     (f"; kernel kwargs as {case['ktensor']} tensors" if case.get("ktensor") else "") +
+                                     (f"; trainer.clear({'keepshape=True' if case.get('clear_keep') else ''}) before step {case['clear_at']}" if case.get("clear_at") is not None else "") + "]",
                                      {"case": dict(case, variants=[a, b]), "weight": describe(case, w, tstr[w], reals[a]["delays"]),
                                       "step": t, "first": va, "second": vb, "relation": rel})
 
@@ -441,9 +513,13 @@ def explore(ctx) -> Exploration:
     rng.shuffle(plans)
     if not heavy:
         plans = plans[:12]
-    for variants, sg, mode, zero, sm in plans:
-        R.add(make_case(rng, variants, SIGNS[sg], "dense", {"nin": n1, "nout": n1}, 1, T1, "sum", mode, zero_delay=zero,
-                        pre=pre, post=post, signal_mode=sm), f"exhaustive-grid-T{T1}")
+    kinds = [None, "0d", "const", "perw"]
+    for pi, (variants, sg, mode, zero, sm) in enumerate(plans):
+        case = make_case(rng, variants, SIGNS[sg], "dense", {"nin": n1, "nout": n1}, 1, T1, "sum", mode, zero_delay=zero,
+                         pre=pre, post=post, signal_mode=sm)
+        if any(v in KERNEL for v in variants) and kinds[pi % 4]:
+            set_ktensor(rng, case, kinds[pi % 4])
+        R.add(case, f"exhaustive-grid-T{T1}")
         if len(R.cases) >= 6:
             R.flush()
     R.flush()
@@ -466,15 +542,37 @@ def explore(ctx) -> Exploration:
             geom = {"n": rng.randint(2, 4)}
         B = rng.choice([1, 2, 3, 4])
         mode = rng.choice(["end", "each", "sched"])
-        R.add(make_case(rng, variants, SIGNS[rng.randrange(4)], conn, geom, B, rng.randint(5, 12), rng.choice(["sum", "mean"]), mode,
-                        zero_delay=zero, signal_mode=sm), "random-population")
+        case = make_case(rng, variants, SIGNS[rng.randrange(4)], conn, geom, B, rng.randint(5, 12), rng.choice(["sum", "mean"]), mode,
+                         zero_delay=zero, signal_mode=sm)
+        if any(v in KERNEL for v in variants) and rng.random() < 0.7:
+            set_ktensor(rng, case, rng.choice(["0d", "const", "perw"]))
+        R.add(case, "random-population")
         if len(R.cases) >= 40:
             R.flush()
+    R.flush()
+
+    # (3) EPISODES: trainer.clear(keepshape=True | False) in the middle of a run — afterwards every "time since the last
+    #     spike" is NaN again: no change until both sides have spiked AFTER the clear, t_delta from post-clear spikes only
+    nep = 105 if heavy else 35
+    for r in range(nep):
+        variants, sm = groups[r % len(groups)]
+        one = r % 3 == 0
+        geom = {"nin": 1, "nout": 1} if one else {"nin": rng.randint(1, 3), "nout": rng.randint(1, 3)}
+        T = rng.randint(6, 11)
+        case = make_case(rng, variants, SIGNS[rng.randrange(4)], "dense", geom, 1 if one else rng.choice([1, 2, 3]), T,
+                         rng.choice(["sum", "mean"]), rng.choice(["end", "each", "sched"]), zero_delay="k" in variants, signal_mode=sm)
+        case["clear_at"] = rng.randint(2, T - 3)
+        case["clear_keep"] = r % 5 != 4
+        if any(v in KERNEL for v in variants) and rng.random() < 0.5:
+            set_ktensor(rng, case, rng.choice(["0d", "const", "perw"]))
+        R.add(case, "episodes")
     R.flush()
     ex.rule = ("(1) a dense 2^T x 2^T layer (T = 4 quick / 6 thorough) in which synapse (i -> j) carries pre history i and post history j — every "
                "pre/post history of that length, all its prefixes compared step by step — per sign mode and trainer group, with delays on a "
                "half-step grid, fixed ('end'), reset before every step ('sched') or learned ('each', delay trainers); (2) random histories on dense / "
-               "direct / lateral / conv cells, batches 1-4, sum / mean, scalar and per-sample signals.  Each real trainer is compared with the "
+               "direct / lateral / conv cells, batches 1-4, sum / mean, scalar and per-sample signals; (3) two-episode runs with trainer.clear(keepshape=True|False) "
+               "in the middle, the second episode judged from post-clear spikes only; the kernel trainers get their rates / time constants as floats, 0-d tensors, "
+               "weight-shaped constant tensors or per-weight tensors.  Each real trainer is compared with the "
                "model (M), the formula from true last-spike times (S) and its sibling implementation.  One case = one weight's run of one "
                "trainer; non-trivial = both neurons of some receptive-field element spike; distinct = distinct (trainer, configuration, delays, history)")
     return ex
@@ -497,7 +595,7 @@ def replay(ctx, data) -> int:
             bad = 1
             continue
         lines, tstr = request_lines(case, v, real["delays"])
-        tables = tables_of(ctx.run_driver(DRIVER, lines), case["T"])
+        tables = tables_for(case, ctx.run_driver(DRIVER, lines))
         for t, (p, n, w) in enumerate(real["steps"]):
             print(f"{v} step {t}: delay {real['delays'][t].tolist()} real pos {None if p is None else p.tolist()} neg {None if n is None else n.tolist()}"
                   f" param {None if w is None else w.tolist()}")
